@@ -189,6 +189,109 @@ def body_unit_test(ctx):
     _check_score(ctx, order, [], case, final)
 
 
+SEC_CODE = "a = 0\n##### Part 1\nb = 1\n##### Part 2\nc = 2\n"
+SCORED = [('give_partial', ('+30%',), {}), ('give_partial', ('-2%',), {'label': 'penalty'}), ('compliment', ('nice',), {'score': 0.07}),
+          ('gently', ('wrong',), {'label': 'w', 'score': '+10%'}), ('gently', ('fine',), {'label': 'f', 'score': '+20%', 'activate': False}),
+          ('explain', ('muted',), {'label': 'm', 'score': '+15%', 'muted': True, 'activate': False})]
+
+
+def body_sections(ctx):
+    """Scored feedback given before, inside and between the sections of a sectioned submission, resolved with the
+    simple and with the full resolver: the same documented sum."""
+    from pedal.source import verify, separate_into_sections, next_section
+    from pedal.resolvers import full
+    where = [ctx.choose(3, 'where%d' % k) for k in range(3)]       # before the sections | in part 1 | in part 2
+    what = [ctx.choose(len(SCORED), 'what%d' % k) for k in range(3)]
+    cmds.clear_report()
+    cmds.contextualize_report(SEC_CODE)
+    verify()
+    plan = sorted(zip(where, range(3), what))
+    case = {'plan': [(('before', 'part 1', 'part 2')[w], SCORED[x][0], SCORED[x][1], SCORED[x][2]) for w, _, x in plan]}
+    ctx.observe(repr(case))
+    ctx.set_sample(case)
+    ctx.mark_nontrivial(repr(case))
+    pos = 0
+    separated = False
+    for w, _, x in plan:
+        while pos < w:
+            if not separated:
+                separate_into_sections()
+                separated = True
+            next_section()
+            verify()
+            pos += 1
+        name, args, kw = SCORED[x]
+        ctx.step((name, args, kw, 'in', ('before', 'part 1', 'part 2')[w]))
+        getattr(cmds, name)(*args, **kw)
+    if not separated:
+        separate_into_sections()
+    order = MAIN_REPORT.feedback + MAIN_REPORT.ignored_feedback
+    for rname, resolver in (('simple', simple), ('full', full)):
+        ctx.step(rname + '.resolve')
+        try:
+            final = resolver.resolve()
+        except Exception as e:
+            ctx.fail({'symptom': 'resolve raised', 'resolver': rname, 'exception': type(e).__name__}, case=case, message=str(e)[:200])
+            continue
+        n0 = len(ctx.fails)
+        _check_score(ctx, order, [], dict(case, resolver=rname), final)
+        for sig, det in ctx.fails[n0:]:
+            sig['resolver'] = rname
+
+
+GROUP_MEMBERS = ['equal-pass', 'equal-fail', 'literal-present', 'literal-absent', 'give_partial', 'gently-untriggered', 'inner-group']
+
+
+def body_group(ctx):
+    """assert_group: whatever feedback is created inside the group is muted and unscored; only the group's own score
+    takes part in the sum."""
+    from pedal.assertions import assert_group, assert_equal, ensure_literal
+    members = [GROUP_MEMBERS[ctx.choose(len(GROUP_MEMBERS), 'member%d' % k)] for k in range(ctx.choose(3, 'members') + 1)]
+    gscore = ('+40%', None, '-10%')[ctx.choose(3, 'group-score')]
+    cmds.clear_report()
+    cmds.contextualize_report("a = 3\nprint(a)\n")
+    case = {'members': members, 'group_score': gscore}
+    ctx.observe(repr(case))
+    ctx.set_sample(case)
+    ctx.mark_nontrivial(repr(case))
+    ctx.step(('assert_group', case))
+    try:
+        with assert_group('checks', **({'score': gscore} if gscore else {})) as group:
+            for m in members:
+                if m == 'equal-pass':
+                    assert_equal(1 + 1, 2, score='+10%')
+                elif m == 'equal-fail':
+                    assert_equal(1 + 1, 3, score='+10%')
+                elif m == 'literal-present':
+                    ensure_literal(3, score='+15%')
+                elif m == 'literal-absent':
+                    ensure_literal(99, score='+15%')
+                elif m == 'give_partial':
+                    cmds.give_partial('+25%')
+                elif m == 'gently-untriggered':
+                    cmds.gently('quiet', label='quiet', score='+5%', activate=False)
+                else:
+                    with assert_group('inner', score='+20%'):
+                        assert_equal(2 * 2, 4, score='+10%')
+    except Exception as e:
+        ctx.fail({'symptom': 'assert_group raised', 'exception': type(e).__name__}, case=case, message=str(e)[:200])
+        return
+    cmds.gently('something else is wrong', label='other')
+    every = MAIN_REPORT.feedback + MAIN_REPORT.ignored_feedback
+    inside = [f for f in every if f is not group and f.label != 'other']
+    loose = [f.label for f in inside if not (f.muted and f.unscored)]
+    if loose:
+        ctx.fail({'symptom': 'feedback created inside an assert_group is not muted and unscored'}, case=case, labels=loose)
+    final = simple.resolve()
+    want = 0.0
+    if gscore and not bool(group):
+        want = 0.4 if gscore == '+40%' else -0.1
+    ctx.outcome(str(want))
+    if abs(final.score - want) > 1e-9:
+        ctx.fail({'symptom': 'wrong score', 'default_result': False, 'feature': 'assert_group'}, case=case, expected=want,
+                 got=final.score, group_failed=bool(group))
+
+
 def bounds(tier):
     return {'systematic_descriptors': len(SYS), 'systematic_max_len': 2,
             'curated_descriptors': len(CUR), 'curated_max_len': 3 if tier == 'quick' else 4,
@@ -205,4 +308,8 @@ def phases(tier):
                 describe='sequences <=3 over a reduced score x valence x state cross (%d descriptors)' % len(SYS3))]
          if tier == 'thorough' else []) + [
         Phase('unit_test', body_unit_test, setup=_setup, describe='unit_test() partial credit layer'),
+        Phase('sections', body_sections, setup=_setup,
+              describe='3 scored feedbacks placed before / in part 1 / in part 2 of a sectioned submission; simple and full resolver'),
+        Phase('assert_group', body_group, setup=_setup,
+              describe='<=3 members of 7 kinds (runtime/static assertions, plain feedback, inner group) in a scored group'),
     ]
